@@ -20,6 +20,7 @@ import random
 
 import engine
 import scen
+import steptie
 from c09 import steps_needed
 
 engine.use_repo()
@@ -239,9 +240,12 @@ def eval_signal(full):
     viol, stats = [], [kind]
     if not mv:
         return {"lines": [], "impl": [], "violations": [], "nontrivial": False, "stats": ["empty"], "replay_case": full}
-    r = scen.run_real(full, timeout_s=90)
+    # the strategy's step model (where one exists) is tied to the real step on these runs
+    with steptie.tie_for(full) as tie:
+        r = scen.run_real(full, timeout_s=90)
+    tl, ti = ([], []) if r.get("timeout") else (tie.lines, tie.impl)
     if r.get("step_i") is None or r.get("escaped") or r.get("timeout") or r.get("aborted"):
-        return {"lines": [], "impl": [], "violations": [], "nontrivial": False, "stats": stats + ["no_full_run"],
+        return {"lines": tl, "impl": ti, "violations": [], "nontrivial": False, "stats": stats + ["no_full_run"],
                 "replay_case": full}
     dt_h = full["meta"]["interval"] / 60.0
     nontrivial = False
@@ -293,7 +297,7 @@ def eval_signal(full):
             if abs(em - eg) <= 1e-3 and cm > cg + 1e-6:
                 viol.append(("market_not_dearer", "C11:balanced_market_pays_more_than_greedy",
                              "equal energy %.4f kWh: market %.6f > greedy %.6f" % (em, cm, cg)))
-    return {"lines": [], "impl": [], "violations": viol, "nontrivial": nontrivial, "stats": stats,
+    return {"lines": tl, "impl": ti, "violations": viol, "nontrivial": nontrivial, "stats": stats,
             "replay_case": full}
 
 
@@ -368,7 +372,9 @@ def eval_schedule(case):
         return res
     sched_mod.Schedule.charge_individually = wrapped
     try:
-        r = scen.run_real(full, timeout_s=90)
+        with steptie.tie_for(full) as tie:
+            r = scen.run_real(full, timeout_s=90)
+        tl, ti = ([], []) if r.get("timeout") else (tie.lines, tie.impl)
     finally:
         sched_mod.Schedule.charge_individually = orig
     viol = []
@@ -378,7 +384,7 @@ def eval_schedule(case):
                          "%s %s: station %.6f kW < %.6f kW (scheduled %.4f, headroom %.4f)"
                          % (t, vid, got, floor_avg, sched, headroom)))
             break
-    return {"lines": [], "impl": [], "violations": viol, "nontrivial": any(x[6] > EPS for x in log),
+    return {"lines": tl, "impl": ti, "violations": viol, "nontrivial": any(x[6] > EPS for x in log),
             "stats": ["schedule_individual"], "replay_case": full, "num": {"floor_checks": len(log)}}
 
 
@@ -387,3 +393,7 @@ def eval_case(case):
         return eval_schedule(case)
     full = case if "scenario" in case else build_signal(case)
     return eval_signal(full)
+
+
+def compare(case, impl, model):
+    return steptie.compare(impl, model)[1]
